@@ -176,7 +176,7 @@ def check_c11(case, stats):
 
 
 CHECKS = {'check_c11': check_c11}
-_B = {'quick': 50, 'thorough': 700}
+_B = {'quick': 50, 'thorough': 1400}
 
 
 def shards(tier):
